@@ -45,25 +45,29 @@ type dxUnk struct {
 
 // dxAttrs is a path by value. Static paths use only NH.
 type dxAttrs struct {
-	Static   bool
-	NH       uint32
-	Src      uint32
-	EBGP     bool
-	LP, MED  uint32
-	BGPID    uint32
-	OrigID   uint32
-	Origin   uint8
-	ASPath   []dxSeg
-	Cluster  []uint32
-	Comms    []uint32
-	LComms   [][3]uint32
-	Unknown  []dxUnk
-	OTC      uint32
-	Atomic   bool
-	HasAggr  bool
-	AggrASN  uint16
-	AggrAddr uint32
-	RxPathID uint32 // path identifier the path was received with (add-path RX); 0 otherwise
+	Static  bool
+	NH      uint32
+	Src     uint32
+	EBGP    bool
+	LP, MED uint32
+	BGPID   uint32
+	OrigID  uint32
+	Origin  uint8
+	ASPath  []dxSeg
+	Cluster []uint32
+	Comms   []uint32
+	LComms  [][3]uint32
+	Unknown []dxUnk
+	OTC     uint32
+	Atomic  bool
+	HasAggr bool
+	// EmptyCluster / EmptyComms: the attribute was received with zero length; the decoder then hands over a non-nil
+	// pointer to an empty list. By value that is the same as an absent attribute (canon does not show it).
+	EmptyCluster bool
+	EmptyComms   bool
+	AggrASN      uint16
+	AggrAddr     uint32
+	RxPathID     uint32 // path identifier the path was received with (add-path RX); 0 otherwise
 }
 
 func dxIP(v uint32) string {
@@ -628,11 +632,11 @@ func dxReal(a dxAttrs) *route.Path {
 	if a.HasAggr {
 		p.BGPPath.BGPPathA.Aggregator = &types.Aggregator{ASN: a.AggrASN, Address: a.AggrAddr}
 	}
-	if len(a.Cluster) > 0 {
+	if len(a.Cluster) > 0 || a.EmptyCluster {
 		cl := types.ClusterList(append([]uint32{}, a.Cluster...))
 		p.BGPPath.ClusterList = &cl
 	}
-	if len(a.Comms) > 0 {
+	if len(a.Comms) > 0 || a.EmptyComms {
 		c := types.Communities(append([]uint32{}, a.Comms...))
 		p.BGPPath.Communities = &c
 	}
@@ -811,6 +815,9 @@ func dxGenBGP(t *rapid.T, label string, o dxGenOpts) dxAttrs {
 			for i := 0; i < n; i++ {
 				a.Cluster = append(a.Cluster, rapid.SampledFrom([]uint32{0x0b0b0b0b, 0x0c0c0c0c}).Draw(t, label+"_cl"))
 			}
+			if n == 0 && rapid.Bool().Draw(t, label+"_emptycl") {
+				a.EmptyCluster = true // CLUSTER_LIST attribute present with zero length
+			}
 		}
 	}
 	// communities incl. the well-known ones
@@ -825,6 +832,9 @@ func dxGenBGP(t *rapid.T, label string, o dxGenOpts) dxAttrs {
 		a.Comms = []uint32{0xfde80001}
 	case 4:
 		a.Comms = []uint32{0xfde80001, 0xfde80002}
+	}
+	if len(a.Comms) == 0 && rapid.IntRange(0, 5).Draw(t, label+"_emptycomm") == 0 {
+		a.EmptyComms = true // COMMUNITIES attribute present with zero length
 	}
 	if rapid.IntRange(0, 3).Draw(t, label+"_otc") == 0 {
 		// OTC carries the AS that set it at an AS boundary: a neighbour AS, never the
